@@ -131,7 +131,7 @@ CHECKS["C17"] = dict(
 
 CHECKS["C19"] = dict(
     category="exploration",
-    text="spec/Features.tla - cargo feature configurations as a state machine (Enable(f) closing under the Cargo.toml implications incl. implicit optional-dependency features and dep/feat forwarding into wow_world_base) - is model checked by TLC over the full powerset of all three crates (840 closed configurations) with the invariant GuardClosed (every item present under a configuration only names items present under it) on a text-level extraction of 50,759 cfg-guarded items and 62,831 resolved references (435 classes). TLC prints the configuration lists (quick: TLC-checked pairwise covering array + TLC-checked strength-3 covering array over the core features of wow_world_messages (first-order Reed-Muller rows) + singles + all + default + documented command lines = ~55; thorough: core powerset x auxiliary off/on = 526, base and login complete); each is compiled with cargo check --no-default-features --features F in a scratch copy of the current tree and rustc's verdict compared with the model's prediction; features named in the crate docs must be declared. Differential: the C01 quick behaviours are replayed against an all-features build and a generated sync+one-expansion build (vh2) and must get identical verdicts.",
+    text="spec/Features.tla - cargo feature configurations as a state machine (Enable(f) closing under the Cargo.toml implications incl. implicit optional-dependency features and dep/feat forwarding into wow_world_base) - is model checked by TLC over the full powerset of all three crates (840 closed configurations) with the invariant GuardClosed (every item present under a configuration only names items present under it) on a text-level extraction of 50,759 cfg-guarded items and 62,831 resolved references (435 classes). TLC prints the configuration lists (quick: TLC-checked pairwise covering array + TLC-checked strength-3 covering array over the core features of wow_world_messages (first-order Reed-Muller rows) + singles + all + default + documented command lines = ~55; thorough: core powerset x auxiliary off/on = 526, base and login complete); each is compiled with cargo check --no-default-features --features F in a scratch copy of the current tree and rustc's verdict compared with the model's prediction; features named in the crate docs must be declared. Differential: the C01 quick behaviours (codec path) AND the frame-stream histories of spec/Framing.tla (1-3 frames around the 0x7FFF / 0xFFFF boundaries through opcode-enum readers and typed expect helpers, plain and encrypted, three I/O flavours) are executed by the all-features build (vh) and by a generated one-expansion build (vh2, sources derived from vh's at check time) and must get identical verdicts.",
     design_ref="DESIGN.md section 5 C19, notes/C19.md",
     note="Whether a configuration builds is rustc's verdict, not the specification's (hence exploration). Trusted: tools/features_front.py (text-level, approximate: unqualified uses, method calls, macros, traits are not followed; misses are only caught by the configurations actually compiled), Cargo feature semantics as transcribed, the offline registry, library target only (cfg(test) off), supported set = every subset because pre-release.sh runs cargo hack --feature-powerset.",
     technique="TLA+ configuration machine model-checked with TLC (closure invariant over the full feature powerset); spec-emitted configurations replayed into cargo check; differential replay of spec-generated codec behaviours against two differently featured builds",
